@@ -199,9 +199,9 @@ def pitRank (obs : α) (ens : List α) : α :=
   pitRankFormula (ens.filter fun a => decide (a < obs)).length (ens.filter fun a => decide (a ≤ obs)).length
     ens.length
 
-/-- `(obs < censor+EPS) & (sum(ens < censor+EPS) > 0)` -/
+/-- `(obs - censor < EPS) & (sum(ens - censor < EPS) > 0)` -/
 def isSudo (eps censor obs : α) (ens : List α) : Bool :=
-  decide (obs < censor + eps) && decide (0 < (ens.filter fun a => decide (a < censor + eps)).length)
+  decide (obs - censor < eps) && decide (0 < (ens.filter fun a => decide (a - censor < eps)).length)
 
 end pit
 
